@@ -119,8 +119,10 @@ pub fn run(report: &mut Report, replay: Option<&Value>) {
         return;
     }
     super::replay_corpus(report, &|r, v| replay_e1(r, v));
-    let hooks = Hooks { classify: &classify, classify_compile: &|_, _| None, compile_failure_is_violation: false };
     let (n_programs, n_payloads, rounds) = if report.thorough() { (400, 50, 10) } else { (240, 30, 1) };
+    let main_cfg = CaseCfg::default();
+    let rebuild = |tp: &[u8]| build_item(tp, &main_cfg, n_payloads, &mut GenStats::default());
+    let hooks = Hooks { classify: &classify, classify_compile: &|_, _| None, compile_failure_is_violation: false, rebuild: Some(&rebuild) };
     let mut stats = GenStats::default();
     for round in 0..rounds {
         let cfg = CaseCfg::default();
